@@ -48,6 +48,18 @@ CHECKS = {
    text="the real ReaderStream runs between an assembler-side actor (seeded delivery script with empty slices, skips and completion; batch memory scribbled over after each call returns) and a consumer actor (seeded read sizes, Close at a seeded point, double Close) inside a synctest bubble; the controller decides who moves; oracles: bytes read are exactly the bytes delivered, one DataLost per gap when asked, EOF for ever after completion or Close, both sides run to completion (no deadlock, no panic).",
    note="trusted: harness actors and the element-by-element read model; single consumer goroutine",
    tech="deterministic simulation in a synctest bubble with gated actors; close-point and read-size fault injection; deadlock detection by durable blocking"),
+ "C02": dict(cat="exploration", engine="coop", ref="4 C02",
+   text="2-4 real goroutines run under the cooperative scheduler, one at a time, over a seeded corpus: decoders compare every NewPacket result with a quiet-state reference decode of the same bytes and options (history and schedule independence), readers call the read-only accessors, String/Dump and VerifyChecksums on eager packets published by other goroutines and must get the publisher's answers, and the input buffers must be unchanged; the same simulation is run in a -race build whose scheduler hand-off is invisible to the race detector, so any write to shared packet memory is reported although the goroutines never ran simultaneously.",
+   note="trusted: harness packet generator, signature renderer and hand-off (one atomic pointer per published packet); schedules are explored at API-call granularity, a torn intermediate value inside one call cannot be produced; the race detector keeps a bounded history per word",
+   tech="deterministic cooperative scheduling of real goroutines with a race-detector-invisible hand-off; reference-decode oracle"),
+ "C04": dict(cat="exploration", engine="coop", ref="4 C04",
+   text="2-4 real goroutines under the cooperative scheduler execute seeded sequences of decode (default, NoCopy, Pool, Pool+Lazy, Lazy), Dispose, producer-overwrites-its-buffer and hand-over to another goroutine, over inputs including lengths 0, 1, 1499, 1500, 1501, 3000; after every step every live copied packet must still render as when it was created, NoCopy/Pool decodes must equal the default decode, and no two undisposed pooled packets may share a pool block; a -race build runs the same simulation.",
+   note="trusted: as C02; which pool block a decode gets is decided by sync.Pool (per-P caches, random drops under -race) and is not owned, verdicts do not depend on it",
+   tech="deterministic cooperative scheduling of real goroutines with a race-detector-invisible hand-off; ownership/aliasing oracle after every step"),
+ "C12": dict(cat="exploration", engine="coop", ref="4 C12",
+   text="2-3 assembler goroutines plus an optional flusher share one real StreamPool (both packages) under the cooperative scheduler: exactly one goroutine runs, each parks at every API call boundary, every stream callback and in front of every lock acquisition of the package (verif-tagged hook; the released worker tries the lock first so blocked workers are known and deadlock is a verdict), and the next runner is drawn from the tape. The merged history is checked for panics, deadlock, a single live stream per connection, non-overlapping callbacks, the in-order delivery model for directions fed by one assembler, cross-stream deliveries and exactly-once completion; -race builds of both packages run the same simulation with the hand-off hidden from the race detector.",
+   note="trusted: scheduler, hooks (add-only lines in front of lock acquisitions), offline history checker; code between two yield points runs atomically; the race detector keeps a bounded history per word",
+   tech="deterministic cooperative scheduling of real goroutines with lock-aware yield hooks and a race-detector-invisible hand-off; offline history oracle"),
 }
 
 def main():
@@ -86,6 +98,7 @@ def main():
         {"name": "des-defrag", "path": "props/defrag", "serves_properties": ["C13"], "kind_free_text": "single-threaded discrete-event simulation: fragmenting senders, lossy network, hostile injector, simulated clock; per-key reference model"},
         {"name": "sim-disk", "path": "sim/disk", "serves_properties": ["C14","C15"], "kind_free_text": "simulated file (write log, crash = cut at a byte) and simulated stream (seeded chunking, data+EOF, injected read error at an offset, post-EOF spin detection)"},
         {"name": "bubble", "path": "sim/bubble", "serves_properties": ["C16","C20"], "kind_free_text": "testing/synctest bubble with gated actors: tape-driven controller releases one actor at a time and waits for durable blocking of every goroutine; fake clock"},
+        {"name": "coop", "path": "sim/coop", "serves_properties": ["C02","C04","C12"], "kind_free_text": "cooperative scheduler for real goroutines: one runs at a time, tape picks the next at yield points (API calls, callbacks, lock hooks with TryLock awareness); channel hand-off in normal builds, raw pipe read/write from norace functions in -race builds so the detector still sees races"},
         {"name": "des-tcp", "path": "sim/tcpsim", "serves_properties": ["C09","C10","C11"], "kind_free_text": "single-threaded discrete-event simulation: TCP senders, lossy network, simulated clock, flush timers; reference delivery/lifecycle model"},
       ],
       "checks": checks,
